@@ -24,6 +24,7 @@ Runtime helpers: client Rpc::unary maps encode/transport/non-success/decode fail
 returns the decoded body otherwise; server Rpc::unary answers an undecodable request without calling the
 service, else calls it exactly once; Status::into_response/from_response use the same header key for the
 message; the rpc module's panic inventory is empty.
+Headers and status travel untouched between handler and typed client (C07.4 / C07.6 re-evaluated).
 """
 TRUSTED = ["quote!/format_ident! produce the tokens pushed in the order recorded", "serde/bincode/json codecs round-trip the user's message types",
            "the Rust type checker rejects wrong-typed generated code (exercised by compiling the example)"]
